@@ -589,7 +589,7 @@ func init() {
 func init() {
 	propMeta["C09"] = PropMeta{
 		Bounds: map[string]interface{}{
-			"quick":    "all 144 ordered pairs of the twelve kinds on shapes of up to three positions with ALL real coordinates for the duality / wrapper-transparency clauses (Circle built with steps=3, its polygon coordinates being opaque trigonometric terms; and again with a CONCRETE circle at (10,20), radius 1000 m, whose polygon is computed by libm on constants, against every symbolic partner); all 121 ordered pairs of the eleven non-Circle kinds with one fixed small shape each and the second under ALL real translations for the semantic clauses (symmetry of intersects, contains => intersects and rectangle cover, intersects => rectangles intersect, self-containment, Rect == five-point polygon)",
+			"quick":    "all 144 ordered pairs of the twelve kinds on shapes of up to three positions (and a polygon with a triangular hole against the leaf kinds, both ways) with ALL real coordinates for the duality / wrapper-transparency clauses (Circle built with steps=3, its polygon coordinates being opaque trigonometric terms; and again with a CONCRETE circle at (10,20), radius 1000 m, whose polygon is computed by libm on constants, against every symbolic partner); all 121 ordered pairs of the eleven non-Circle kinds with one fixed small shape each and the second under ALL real translations for the semantic clauses (symmetry of intersects, contains => intersects and rectangle cover, intersects => rectangles intersect, self-containment, Rect == five-point polygon)",
 			"thorough": "as quick, and the semantic clauses for all four combinations of the two base shapes (right triangle / flat triangle) of the pair",
 		},
 		Outside:     []string{"Circle in the semantic clauses (C13: not applicable)", "larger shapes than three positions per object; collections of more than two children", "Rect transparency is checked for the fixed shapes under all translations, not for all rectangles"},
@@ -599,6 +599,11 @@ func init() {
 	jobTables["C09"] = func(tier string) []Job {
 		out := segLemmaJobs()
 		c := []string{fnRaycast, fnSegSeg}
+		// a polygon with a hole (kind 12) against the leaf kinds, both ways: duality and leaf transparency
+		for _, k := range []int{0, 1, 2, 3, 4, 10} {
+			out = append(out, Job{Pkg: "geojson", Harness: "H_Obj_Dual", Params: []int{12, k}, Timeout: 120, Scale: true, Contracts: c, NoCover: true})
+			out = append(out, Job{Pkg: "geojson", Harness: "H_Obj_Dual", Params: []int{k, 12}, Timeout: 120, Scale: true, Contracts: c, NoCover: true})
+		}
 		for a := 0; a < 12; a++ {
 			for b := 0; b < 12; b++ {
 				out = append(out, Job{Pkg: "geojson", Harness: "H_Obj_Dual", Params: []int{a, b}, Timeout: 120, Scale: true, Contracts: c, NoCover: a+b > 0, Abstract: a == 5 || b == 5})
